@@ -128,8 +128,9 @@ func watchdog(rep *Report) {
 			prog := atomic.LoadInt64(&currentProgram)
 			fmt.Fprintf(os.Stderr, "HANG: no progress for %ds in program %d of check %s seed %d\n", *fHang, prog, rep.Check, rep.Seed)
 			pprof.Lookup("goroutine").WriteTo(os.Stderr, 1)
-			rep.Failures = append(rep.Failures, FailureRec{Prop: "C08", Kind: "hang", Seed: rep.Seed, Program: int(prog),
-				Msg: fmt.Sprintf("operation did not return within %ds (program %d of %s)", *fHang, prog, rep.Check)})
+			op, _ := engine.LastOp.Load().(string)
+			rep.Failures = append(rep.Failures, FailureRec{Prop: "", Kind: "hang", Seed: rep.Seed, Program: int(prog),
+				Msg: fmt.Sprintf("operation did not return within %ds (program %d of %s; last library call: %s)", *fHang, prog, rep.Check, op)})
 			if cs := engine.Current; cs != nil {
 				t := cs.Trace.String()
 				rep.Failures[len(rep.Failures)-1].Trace = t
